@@ -76,6 +76,19 @@ ROWS = {
   note='translator harness/translate/loops10.py; reference device Spec/FruDevice.lean (rejects or serves short); area '
        'parsers are C15; differential run compares outcome, bytes, full request trace and final device state',
   tech='Lean 4 proof (loop invariant: bytes so far = storage prefix) + AST translator + differential correspondence against a reference device'),
+ 'C11': dict(
+  text='Lean theorems over every well-formed reference SDR device (two stores, records of 5..260 bytes, any ids, any '
+       'per-read limit signalled by CAh, reservations cancelled before any request indices, transient C3h/CEh at any '
+       'indices): a read that returns, returns exactly the stored record and its successor id, otherwise '
+       'RetryError/CompletionCodeError; it does return when limit >= 5, the loop iterations fit the budget '
+       '(closed form; limit >= 16 serves every record) and at most 2 cancellations are to come; over ANY transport a '
+       'Get answered C5h is immediately followed by the Reserve of the same store and no request addresses the other '
+       'store; listings yield all records once in repository order, with the fuel lemma. Constants, loop shape and the '
+       'call-site table (which reserve function each store uses) are regenerated from the source on every run.',
+  note='translator harness/translate/loops11.py (shared with C13); Model/SdrXfer.lean hand-written, tied by a differential '
+       'run on outcome, bytes and full request trace; reference device Spec/SdrDevice.lean with a Python twin re-validated '
+       'against it on every trace; completion proved for a device without transient codes and <= 2 cancellations (tight)',
+  tech='Lean 4 proof (loop invariants by induction on the retry budgets, chain induction for listings, trace invariant over an arbitrary transport) + AST translator + differential correspondence against a reference device'),
  'C12': dict(
   text='Lean theorems for every log, partial-read limit and script of concurrent changes: entries are returned exactly, '
        'once each, in order; an empty log gives nothing; get-and-clear returns the entry that was deleted, deletes '
@@ -164,7 +177,6 @@ ROWS = {
 NOT_YET = {
  'C06': 'check runs (real session setup against a Lean reference BMC) but its Lean theorems are not finished; not claimed until they are',
  'C07': 'check runs (real API against a Lean reference BMC, 30+ operations) but the refinement theorems are not finished; not claimed until they are',
- 'C11': 'check not built yet (model and lemmas in progress) - not a claim that the technique cannot apply',
 }
 
 ORDER = ['C%02d' % i for i in range(1, 21)]
